@@ -884,7 +884,7 @@ theorem handshake_rl (cfg : HCfg) (t a : Nat) (k : HKind) (s : HState) :
   · simp
   · cases c2 : isBanned t (s.bf a).ban
     · cases c3 : (allowB cfg.rl cfg.U t (s.rl a)).2 <;> cases k <;>
-        simp [HKind.anon, HKind.outcome]
+        simp [HKind.anon, HKind.outcome, HKind.neutralResp]
     · simp
 
 theorem rlProj_regs (cfg : HCfg) (ip : Nat) (es : List (Nat × HEv)) :
